@@ -347,10 +347,15 @@
 		;; 仅初始化1次堆
 		call $wa_malloc_init_once
 
-		;; 输入参数对齐到8字节
+		;; 输入参数对齐到8字节, 最小8字节(0字节会匹配到 size=0 的 l128 链表头)
 		local.get $size
 		call $heap_alignment8
-		local.set $size
+		local.tee $size
+		i32.eqz
+		if
+			i32.const 8
+			local.set $size
+		end
 
 		;; 根据大小返回对应空闲链表的地址
 		;; 并返回对齐到8字节的大小
